@@ -243,6 +243,11 @@ class NF:
                 out.append(("vars-of", self.gen(x[3][0])))
             elif x[0] == "call" and x[1] in ("Vec::new", "Vec::with_capacity", "IndexSet::new"):
                 pass
+            elif x[0] == "call" and x[1] == "Iterator::chain" and len(x[2]) == 2:
+                go(x[2][0])
+                go(x[2][1])
+            elif x[0] == "call" and x[1] == "iter::once" and len(x[2]) == 1:
+                out.append(self.var(x[2][0]))
             elif x[0] == "call" and x[1] in ("Iterator::collect", "FromIterator::from_iter"):
                 out.append(("vars-of", self.gen(x[2][0])))
             else:
